@@ -272,7 +272,7 @@ def default_cfg() -> dict:
     }
 
 
-def draw_cfg(rng: random.Random, focus: str = "C01") -> dict:
+def draw_cfg(rng: random.Random, focus: str = "C01", tier: str = "quick") -> dict:
     """Swarm: every run gets its own sizes, rates and enabled kinds."""
     cfg = default_cfg()
     cfg["n_users"] = rng.choice([0, 1, 2, 4])
@@ -288,6 +288,16 @@ def draw_cfg(rng: random.Random, focus: str = "C01") -> dict:
     if rng.random() < 0.5:
         kinds = rng.sample(kinds, rng.randint(1, 4))
     cfg["geometries"] = kinds
+    if tier == "thorough" and rng.random() < 0.3:
+        # deeper bounds: larger worlds in a third of the thorough runs
+        cfg["n_users"] = rng.choice([4, 6])
+        cfg["n_tags"] = rng.choice([6, 10])
+        cfg["n_recordings"] = rng.choice([3, 5])
+        cfg["n_clips"] = rng.choice([4, 6])
+        cfg["n_sound_events"] = rng.choice([8, 14])
+        cfg["n_sequences"] = rng.choice([3, 5])
+        cfg["n_per_clip"] = rng.choice([4, 8])
+        cfg["large"] = True
     cfg["audio_root"] = rng.choice(AUDIO_ROOTS)
     cfg["tz_aware"] = rng.random() < 0.15
     if focus == "C18":
